@@ -20,7 +20,7 @@ RULE = ("MazeDatasetCollection built from member datasets with prescribed length
 ASSUMPTIONS = ["member configs carry n_mazes == len(member) (what generation and update_self_config produce)"]
 EXHAUSTIVE = {"quick": False, "thorough": False}
 NSHARDS = {"quick": 16, "thorough": 16}
-THRESHOLDS = {"quick": {"c16:collections": 800, "c16:library-made": 120, "c16:library-made:member-configs-with-filters": 50, "c16:index-checks": 3000, "c16:vec-exhaustive": 363, "c16:zero-first": 50,
+THRESHOLDS = {"quick": {"c16:collections": 800, "c16:library-made": 120, "c16:derived-members:filters-of-one-base": 40, "c16:member-served-from-cache": 60, "c16:library-made:member-configs-with-filters": 50, "c16:index-checks": 3000, "c16:vec-exhaustive": 363, "c16:zero-first": 50,
                         "c16:zero-middle": 50, "c16:zero-last": 50, "c16:repeated-zeros": 50, "c16:mixed-grid": 100,
                         "c16:np-int-index": 300, "c16:long-members": 30, "c16:caller-list-mutated": 500, "c16:rebalanced-in-place": 300, "c16:config-object-reused": 500, "c16:many-members": 6, "c16:shared-member-names": 60, "c16:index-checks-second-pass": 2000}}
 THRESHOLDS["thorough"] = dict(THRESHOLDS["quick"])
@@ -203,8 +203,64 @@ def _library_made(ctx, n):
             ctx.check(rep == lens, "C16/library-made-member-config-count-wrong", lambda: f"{how}: cfg.maze_dataset_configs report {rep}, members hold {lens}", case)
 
 
+def _derived_members(ctx, n):
+    """collections whose members are what a user typically has at hand: several datasets derived from ONE base dataset by filters
+    (prefixes of growing size, an emptied one, the base itself), or datasets obtained through the config-driven entry point with its
+    cache (first request generates, the second one is served from the file); the collection config is built from the members' configs"""
+    import shutil
+    import tempfile
+
+    from maze_dataset import MazeDataset, MazeDatasetConfig
+    from maze_dataset.dataset.collected_dataset import MazeDatasetCollection, MazeDatasetCollectionConfig
+
+    for j in range(n):
+        if not ctx.mine(j):
+            continue
+        rng = ctx.sub_rng("derived", j)
+        how = ["filters-of-one-base", "from_config-cache-hits"][j % 2]
+        case = dict(kind="derived-members", how=how, j=j)
+        tmp = None
+        with ctx.guard("C16/derived-members", case):
+            with warnings.catch_warnings():
+                warnings.simplefilter("ignore")
+                if how == "filters-of-one-base":
+                    base = MazeDataset.generate(MazeDatasetConfig(name="base", grid_n=int(rng.integers(3, 6)), n_mazes=int(rng.integers(6, 13)), seed=int(rng.integers(1 << 20))))
+                    pool = [lambda: base.filter_by.truncate_count(int(rng.integers(1, len(base)))), lambda: base.filter_by.truncate_count(0), lambda: base,
+                            lambda: base.filter_by.cut_percentile_shortest(float(rng.integers(20, 70))), lambda: base.filter_by.path_length(min_length=int(rng.integers(2, 6))),
+                            lambda: base.filter_by.truncate_count(2).filter_by.truncate_count(1), lambda: base.filter_by.start_end_distance(min_distance=2)]
+                    members = [pool[int(rng.integers(len(pool)))]() for _ in range(int(rng.integers(2, 6)))]
+                else:
+                    tmp = tempfile.mkdtemp(prefix="c16-cache-", dir=ctx.work)
+                    members = []
+                    for t in range(int(rng.integers(2, 5))):
+                        flt = [[], [dict(name="path_length", args=(), kwargs=dict(min_length=4))], [dict(name="truncate_count", args=(2,), kwargs={})],
+                               [dict(name="start_end_distance", args=(), kwargs=dict(min_distance=3))]][int(rng.integers(4))]
+                        mk = lambda: MazeDatasetConfig(name=f"d{t}", grid_n=int(3 + t % 3), n_mazes=int(5 + t), seed=77 + t, applied_filters=[dict(f) for f in flt])  # noqa: E731
+                        try:
+                            MazeDataset.from_config(mk(), local_base_path=tmp, do_download=False)
+                            members.append(MazeDataset.from_config(mk(), local_base_path=tmp, do_download=False))
+                            ctx.tally("c16:member-served-from-cache")
+                        except Exception as e:  # noqa: BLE001
+                            ctx.tally(f"c16:cached-request-failed:{type(e).__name__}(not judged here)")
+                if len(members) < 1:
+                    continue
+                col = MazeDatasetCollection(MazeDatasetCollectionConfig(name=f"derived{j}", maze_dataset_configs=[m.cfg for m in members]), members)
+            ctx.ev(); ctx.tally("c16:derived-members"); ctx.tally(f"c16:derived-members:{how}")
+            lens = [len(m) for m in members]
+            total = sum(lens)
+            concat = [mz for m in members for mz in m.mazes]
+            ok = (len(col) == total and len(col.mazes) == total and [int(x) for x in col.dataset_lengths] == lens and int(col.cfg.n_mazes) == total)
+            ctx.check(ok, "C16/derived-members-views-disagree",
+                      lambda: f"{how}: members hold {lens} (sum {total}); len()={len(col)}, len(.mazes)={len(col.mazes)}, dataset_lengths={list(col.dataset_lengths)}, cfg.n_mazes={col.cfg.n_mazes}, "
+                              f"member cfg counts {[int(c.n_mazes) for c in col.cfg.maze_dataset_configs]}", case)
+            ctx.check(all(col[i] is concat[i] for i in range(min(total, len(col)))), "C16/item-not-the-member-maze", f"{how}", case)
+        if tmp:
+            shutil.rmtree(tmp, ignore_errors=True)
+
+
 def run(ctx):
     _library_made(ctx, 160 if ctx.quick else 1600)
+    _derived_members(ctx, 120 if ctx.quick else 1200)
     k = 0
     for klen in range(1, 6):
         for vec in itertools.product((0, 1, 2), repeat=klen):
